@@ -61,20 +61,24 @@ seq_t dtw_warping_paths{{ suffix }}{{ suffix2 }}(seq_t *wps,
     {%- if "affinity" not in suffix %}
     if (settings->use_pruning || settings->only_ub) {
         if (ndim == 1) {
-            p.max_dist = ub_euclidean(s1, l1, s2, l2);
+            p.max_dist = ub_euclidean{{ suffix2 }}(s1, l1, s2, l2);
         } else {
-            p.max_dist = ub_euclidean_ndim(s1, l1, s2, l2, ndim);
+            p.max_dist = ub_euclidean_ndim{{ suffix2 }}(s1, l1, s2, l2, ndim);
         }
         {%- if "euclidean" == inner_dist %}
         {%- else %}
         p.max_dist = pow(p.max_dist, 2);
         {%- endif %}
         if (settings->only_ub) {
+            {%- if "euclidean" == inner_dist %}
+            return p.max_dist;
+            {%- else %}
             if (keep_int_repr) {
                 return p.max_dist;
             } else {
                 return sqrt(p.max_dist);
             }
+            {%- endif %}
         }
     }
     {%- endif %}
